@@ -2,8 +2,10 @@ package mirror
 
 import (
 	"bytes"
+	"errors"
 	"fmt"
 	"os"
+	"os/signal"
 	"runtime"
 	"runtime/debug"
 	"strconv"
@@ -198,8 +200,74 @@ func runCtorFail(a tr.Args) error {
 			}
 		}
 	}
+	// Another failure point: the backing file cannot be brought to its size (file size limit below the
+	// buffer size: ftruncate fails with EFBIG). The limit is process-wide, so it is lowered only around the
+	// constructor call (the trace file is written afterwards).
+	signal.Ignore(syscall.SIGXFSZ)
+	truncFailed := 0
+	for _, pages := range []int{4, 1} {
+		for _, pf := range []bool{false, true} {
+			sid++
+			size := pages * page
+			before, err := readMaps()
+			if err != nil {
+				return err
+			}
+			fdsBefore := countFds()
+			var oldLim syscall.Rlimit
+			if err := syscall.Getrlimit(syscall.RLIMIT_FSIZE, &oldLim); err != nil {
+				return err
+			}
+			if err := syscall.Setrlimit(syscall.RLIMIT_FSIZE, &syscall.Rlimit{Cur: uint64(page / 2), Max: oldLim.Max}); err != nil {
+				return err
+			}
+			b, cerr := sbytes.NewMirroredBuffer(size, pf)
+			_ = syscall.Setrlimit(syscall.RLIMIT_FSIZE, &oldLim)
+			e2 := Ev{C: "mirror", Ev: "NewFail", Sid: sid, I: 1, N: size, Off: -1, Alias: -1, Page: page, Mod: TokMod,
+				Pf: b2i(pf), Runs: [][3]int{}, Maps: [][2]int{}, Len: -1}
+			if cerr == nil {
+				succeeded++
+				e2.Size = b.Size()
+				_ = b.Destroy()
+			} else {
+				failed++
+				truncFailed++
+				e2.Ret = 1
+				// the error names the backing file: it must be gone
+				var pe *os.PathError
+				if errors.As(cerr, &pe) && strings.Contains(pe.Path, "sonic-mirrored-buffer") {
+					if _, serr := os.Stat(pe.Path); serr == nil {
+						e2.File = 1
+						_ = os.Remove(pe.Path)
+					}
+				}
+			}
+			after, err := readMaps()
+			if err != nil {
+				return err
+			}
+			for key, v := range after {
+				if _, ok := before[key]; ok {
+					continue
+				}
+				if strings.Contains(v.name, "sonic-mirrored-buffer") {
+					e2.Maps = append(e2.Maps, [2]int{1, int(v.hi - v.lo)})
+					syscall.Syscall(syscall.SYS_MUNMAP, uintptr(v.lo), uintptr(v.hi-v.lo), 0)
+				}
+			}
+			if d := countFds() - fdsBefore; d > 0 {
+				e2.Fds = d
+			}
+			w.Emit(e2)
+			sum.Scenarios++
+			if cerr != nil {
+				sum.Nontrivial++
+			}
+		}
+	}
 	sum.Events = w.N
-	sum.Notes = map[string]int{"constructor_failed": failed, "constructor_succeeded": succeeded, "max_map_count": lim}
+	sum.Notes = map[string]int{"constructor_failed": failed, "constructor_succeeded": succeeded, "max_map_count": lim,
+		"constructor_failed_at_truncate": truncFailed}
 	if err := w.Close(); err != nil {
 		return err
 	}
